@@ -57,6 +57,10 @@ def run_worker(prop, tier, seed, job, lo, hi, shard, outdir, timeout, only=None)
     ]
     if only is not None:
         cmd += ["--only", str(only)]
+    cov_dir = os.environ.get("VERIF_COVERAGE")
+    if cov_dir:
+        # reach measurement (tools/reach.py): which lines of the library the workloads execute; never part of a verdict
+        cmd = [sys.executable, "-m", "coverage", "run", "--parallel-mode", f"--data-file={cov_dir}/.coverage", "--source=beyond"] + cmd[1:]
     t0 = time.time()
     try:
         p = subprocess.run(cmd, env=worker_env(), cwd=str(VERIF), capture_output=True, text=True, timeout=timeout)
